@@ -32,34 +32,40 @@ type Behavior struct {
 	AllowedFast    []uint32      // allowed-fast messages sent right after the bitfield (fast only)
 
 	// Serving policy.
-	ServeDelay    [2]time.Duration
-	Snub          bool    // accept requests, never answer
-	SnubAfter     int     // >0: stop answering after this many served blocks
-	CorruptP      float64 // probability that a served block carries wrong bytes
-	CorruptPieces map[int]bool
-	WrongLenP     float64 // serve a block with a different length
-	DupP          float64 // send a served block twice
-	UnrequestedP  float64 // send an extra block nobody asked for
-	OutOfRangeP   float64 // send a block with index/begin out of range
-	RejectP       float64 // answer with reject instead (fast only)
+	ServeDelay            [2]time.Duration
+	Snub                  bool    // accept requests, never answer
+	SnubAfter             int     // >0: stop answering after this many served blocks
+	CorruptP              float64 // probability that a served block carries wrong bytes
+	CorruptPieces         map[int]bool
+	WrongLenP             float64 // serve a block with a different length
+	DupP                  float64 // send a served block twice
+	UnrequestedP          float64 // send an extra block nobody asked for
+	OutOfRangeP           float64 // send a block with index/begin out of range
+	RejectP               float64 // answer with reject instead (fast only)
 	DisconnectAfterBlocks int
-	ReorderServe  bool // answer queued requests in random order
+	ReorderServe          bool // answer queued requests in random order
 
 	// Leeching policy (download from the SUT).
-	Leech          bool
-	LeechReqs      func(p *Peer) []Req `json:"-"` // custom request generator (C03); nil = honest sequential
-	LeechPipeline  int
+	Leech           bool
+	LeechReqs       func(p *Peer) []Req `json:"-"` // custom request generator (C03); nil = honest sequential
+	LeechPipeline   int
 	LeechInterested bool
+	// LeechMode "fuzz": requests drawn from the generator below (valid aligned / unaligned /
+	// crossing multiples of LeechCross / invalid / for missing pieces / while choked / cancels).
+	LeechMode     string
+	LeechCross    int64   // a boundary size worth crossing (the SUT's read-cache block size)
+	LeechInvalidP float64 // probability that a generated request is invalid
+	LeechChokedP  float64 // probability of requesting while choked
 
 	// Extension protocol.
-	ExtReqq        int            // reqq advertised (0 = omit)
-	ExtM           map[string]any // m dictionary (nil = ut_metadata:2, ut_pex:1)
-	MetadataSize   int            // advertised metadata_size (0 = real size, <0 = omit)
-	MetaMode       string         // "", "honest", "reject", "silent", "garbage", "wrongbytes", "wrongsize", "dup", "unrequested"
-	ClientVersion  string
-	PEXAdded       [][]string // PEX rounds: each a list of "ip:port" sent as `added`
-	PEXEvery       time.Duration
-	SendPort       uint16
+	ExtReqq       int            // reqq advertised (0 = omit)
+	ExtM          map[string]any // m dictionary (nil = ut_metadata:2, ut_pex:1)
+	MetadataSize  int            // advertised metadata_size (0 = real size, <0 = omit)
+	MetaMode      string         // "", "honest", "reject", "silent", "garbage", "wrongbytes", "wrongsize", "dup", "unrequested"
+	ClientVersion string
+	PEXAdded      [][]string // PEX rounds: each a list of "ip:port" sent as `added`
+	PEXEvery      time.Duration
+	SendPort      uint16
 
 	// Hostile: after the handshake run this raw script instead of the normal protocol.
 	Hostile func(p *Peer) `json:"-"`
@@ -113,50 +119,52 @@ type Peer struct {
 	HS   Handshake // the SUT's handshake
 	rng  *simrt.Rand
 
-	mu             sync.Mutex
-	have           Bits
-	SutHave        Bits
-	amChoking      bool // we choke the SUT
-	amInterested   bool
-	sutChoking     bool // the SUT chokes us
-	SutInterested  bool
-	afSent         map[uint32]bool // allowed-fast we granted
-	afRecv         map[uint32]bool // allowed-fast the SUT granted us
-	reqIn          []Req           // requests from the SUT we have not answered
-	reqOut         []Req           // our requests the SUT has not answered
-	served         int
-	chokeMark      *simnet.Mark // set when we sent choke: consumed-by-SUT tracking
-	everUnchoked   bool
-	sutExt         map[string]any // SUT's extension handshake
-	sutMetaID      uint8
-	sutPexID       uint8
-	haveSentToUs   map[uint32]bool
-	closed         bool
-	closeErr       error
-	wq             chan wItem
-	initMark       *simnet.Mark
-	lastAdvAt      time.Duration
-	ClosedAt       time.Duration
-	serveQ         chan struct{}
-	done           chan struct{}
-	BytesPayloadRx int64 // piece payload bytes received from the SUT
-	BytesPayloadTx int64
-	RecvLog        []string
-	pendingServe   []Req
-	leechKick      chan struct{}
-	Received       map[Req][]byte // blocks received (leech mode)
-	numPieces      int
-	NoChecks       bool // disable local property checks (hostile scripts)
-	lastReqPiece   int64
-	MetaReqs       []uint32 // ut_metadata requests received from the SUT
-	PEXRecv        int      // PEX messages received from the SUT
-	ExtHandshakeRx map[string]any
-	onMetaData     func(piece int, dict map[string]any, data []byte)
+	mu              sync.Mutex
+	have            Bits
+	SutHave         Bits
+	amChoking       bool // we choke the SUT
+	amInterested    bool
+	sutChoking      bool // the SUT chokes us
+	SutInterested   bool
+	afSent          map[uint32]bool // allowed-fast we granted
+	afRecv          map[uint32]bool // allowed-fast the SUT granted us
+	reqIn           []Req           // requests from the SUT we have not answered
+	reqOut          []Req           // our requests the SUT has not answered
+	reqCancelled    map[Req]int     // requests we cancelled (an answer may still arrive: cancel is advisory)
+	reqChokeDropped map[Req]int     // requests dropped by a choke from the SUT (non-fast)
+	served          int
+	chokeMark       *simnet.Mark // set when we sent choke: consumed-by-SUT tracking
+	everUnchoked    bool
+	sutExt          map[string]any // SUT's extension handshake
+	sutMetaID       uint8
+	sutPexID        uint8
+	haveSentToUs    map[uint32]bool
+	closed          bool
+	closeErr        error
+	wq              chan wItem
+	initMark        *simnet.Mark
+	lastAdvAt       time.Duration
+	ClosedAt        time.Duration
+	serveQ          chan struct{}
+	done            chan struct{}
+	BytesPayloadRx  int64 // piece payload bytes received from the SUT
+	BytesPayloadTx  int64
+	RecvLog         []string
+	pendingServe    []Req
+	leechKick       chan struct{}
+	Received        map[Req][]byte // blocks received (leech mode)
+	numPieces       int
+	NoChecks        bool // disable local property checks (hostile scripts)
+	lastReqPiece    int64
+	MetaReqs        []uint32 // ut_metadata requests received from the SUT
+	PEXRecv         int      // PEX messages received from the SUT
+	ExtHandshakeRx  map[string]any
+	onMetaData      func(piece int, dict map[string]any, data []byte)
 }
 
 func NewPeer(name string, host *simrt.Host, t *gen.Torrent, b Behavior, seed uint64) *Peer {
 	p := &Peer{Name: name, Host: host, T: t, B: b, rng: simrt.NewRand(seed), amChoking: true, sutChoking: true,
-		afSent: map[uint32]bool{}, afRecv: map[uint32]bool{}, haveSentToUs: map[uint32]bool{}, wq: make(chan wItem, 4096),
+		afSent: map[uint32]bool{}, afRecv: map[uint32]bool{}, reqCancelled: map[Req]int{}, reqChokeDropped: map[Req]int{}, haveSentToUs: map[uint32]bool{}, wq: make(chan wItem, 4096),
 		serveQ: make(chan struct{}, 1), done: make(chan struct{}), leechKick: make(chan struct{}, 1), Received: map[Req][]byte{}, lastReqPiece: -1}
 	if t != nil {
 		p.InfoHash = t.InfoHash
@@ -645,6 +653,9 @@ func (p *Peer) readLoop() error {
 		if p.H.OnMsg != nil {
 			p.H.OnMsg(p, m)
 		}
+		if WireLog {
+			p.logf("<- %s", m.String())
+		}
 		p.handle(m)
 	}
 }
@@ -669,6 +680,9 @@ func (p *Peer) handle(m Msg) {
 		p.mu.Lock()
 		p.sutChoking = true
 		if !p.fast() {
+			for _, q := range p.reqOut {
+				p.reqChokeDropped[q]++
+			}
 			p.reqOut = nil
 		}
 		p.mu.Unlock()
@@ -979,11 +993,20 @@ func (p *Peer) onPiece(m Msg) {
 	p.mu.Lock()
 	r := Req{m.Index, m.Begin, uint32(len(m.Data))}
 	var match *Req
-	for i := range p.reqOut {
+	for i := range p.reqOut { // exact match first
 		q := p.reqOut[i]
-		if q.Index == m.Index && q.Begin == m.Begin {
+		if q == r {
 			match = &q
 			break
+		}
+	}
+	if match == nil && p.reqCancelled[r] == 0 && p.reqChokeDropped[r] == 0 {
+		for i := range p.reqOut {
+			q := p.reqOut[i]
+			if q.Index == m.Index && q.Begin == m.Begin {
+				match = &q
+				break
+			}
 		}
 	}
 	choked := p.sutChoking
@@ -1000,8 +1023,30 @@ func (p *Peer) onPiece(m Msg) {
 		return
 	}
 	if match == nil {
-		p.violate("C03", "piece.unrequested", "piece %v answers no outstanding request", r)
-		return
+		p.mu.Lock()
+		nc, nd := p.reqCancelled[r], p.reqChokeDropped[r]
+		if nc > 0 {
+			p.reqCancelled[r]--
+		} else if nd > 0 {
+			p.reqChokeDropped[r]--
+		}
+		p.mu.Unlock()
+		switch {
+		case nc > 0:
+			// answer to a request we cancelled: legal, still must be exact
+			match = &r
+			simrt.Count("probe.leech.piece_after_cancel", 1)
+		case nd > 0:
+			// the SUT choked us (dropping this request) and then served it anyway
+			if !af {
+				p.violate("C03", "piece.while_choking", "block %v sent after the SUT choked this peer (request dropped by the choke, piece not allowed-fast)", r)
+				return
+			}
+			match = &r
+		default:
+			p.violate("C03", "piece.unrequested", "piece %v answers no outstanding request", r)
+			return
+		}
 	}
 	if match.Length != uint32(len(m.Data)) {
 		p.violate("C03", "piece.length", "requested %v, got %d bytes", *match, len(m.Data))
@@ -1034,8 +1079,14 @@ func validReq(t *gen.Torrent, r Req) bool {
 	return uint64(r.Begin)+uint64(r.Length) <= uint64(t.PieceSize(int(r.Index)))
 }
 
+// WireLog makes peers log every message (debugging aid; changes the trace hash).
+var WireLog bool
+
 // Request sends a request to the SUT and records it as outstanding.
 func (p *Peer) Request(r Req) {
+	if WireLog {
+		p.logf("-> request%v", r)
+	}
 	p.mu.Lock()
 	p.reqOut = append(p.reqOut, r)
 	p.mu.Unlock()
@@ -1045,6 +1096,9 @@ func (p *Peer) Request(r Req) {
 // Cancel sends a cancel.
 func (p *Peer) Cancel(r Req) {
 	p.mu.Lock()
+	if hasReq(p.reqOut, r) {
+		p.reqCancelled[r]++
+	}
 	p.reqOut = removeReq(p.reqOut, r)
 	p.mu.Unlock()
 	p.Send(EncCancel(r.Index, r.Begin, r.Length))
@@ -1083,6 +1137,7 @@ func (p *Peer) leecher() {
 		plan = p.B.LeechReqs(p)
 	}
 	next := 0
+	sent := 0
 	gotPiece := map[int]int{} // bytes received per piece
 	for {
 		select {
@@ -1095,6 +1150,24 @@ func (p *Peer) leecher() {
 			for next < len(plan) && p.Outstanding() < pipeline {
 				p.Request(plan[next])
 				next++
+			}
+			continue
+		}
+		if p.B.LeechMode == "fuzz" {
+			// bounded request rate: a batch, then think time (keeps the event count of a
+			// run proportional to simulated time whatever the latency is)
+			batch := 0
+			for p.Outstanding() < pipeline && batch < 64 && sent < 4000 {
+				if !p.fuzzRequest() {
+					break
+				}
+				batch++
+				sent++
+			}
+			select {
+			case <-time.After(p.rng.Dur(2*time.Millisecond, 80*time.Millisecond)):
+			case <-p.done:
+				return
 			}
 			continue
 		}
@@ -1294,3 +1367,125 @@ func (p *Peer) SutExt() map[string]any {
 
 // InfoHashOf is a helper.
 func InfoHashOf(info []byte) [20]byte { return sha1.Sum(info) }
+
+// fuzzRequest sends one generated request (or cancel). Returns false if nothing can be
+// sent now (choked and not in the mood, or nothing announced yet).
+func (p *Peer) fuzzRequest() bool {
+	p.mu.Lock()
+	choked := p.sutChoking
+	var have []int
+	for i := 0; i < p.numPieces; i++ {
+		if p.SutHave.Has(i) {
+			have = append(have, i)
+		}
+	}
+	var af []uint32
+	for i := range p.afRecv {
+		af = append(af, i)
+	}
+	nout := len(p.reqOut)
+	var someOut Req
+	if nout > 0 {
+		someOut = p.reqOut[p.rng.Intn(nout)]
+	}
+	p.mu.Unlock()
+	r := p.rng
+	t := p.T
+	if choked {
+		if !r.Chance(p.B.LeechChokedP) {
+			// allowed-fast pieces may be requested while choked
+			if len(af) > 0 && r.Chance(0.5) {
+				i := int(af[r.Intn(len(af))])
+				if i < t.NumPieces {
+					ps := t.PieceSize(i)
+					b := r.Intn(ps)
+					l := 1 + r.Intn(min(16384, ps-b))
+					simrt.Count("probe.leech.req_allowedfast_while_choked", 1)
+					p.Request(Req{uint32(i), uint32(b), uint32(l)})
+					return true
+				}
+			}
+			return false
+		}
+		simrt.Count("probe.leech.req_while_choked", 1)
+	}
+	if nout > 0 && r.Chance(0.05) {
+		simrt.Count("probe.leech.cancel", 1)
+		p.Cancel(someOut)
+		return true
+	}
+	if r.Chance(p.B.LeechInvalidP) {
+		var q Req
+		i := 0
+		if len(have) > 0 {
+			i = have[r.Intn(len(have))]
+		}
+		ps := uint32(t.PieceSize(i))
+		switch r.Intn(7) {
+		case 0:
+			q = Req{uint32(i), 0, 0} // zero length
+		case 1:
+			q = Req{uint32(i), 0, 16385}
+		case 2:
+			q = Req{uint32(i), 0xfffffff0, 32} // begin+length overflows 32 bits
+		case 3:
+			q = Req{uint32(t.NumPieces) + uint32(r.Intn(3)), 0, 16384}
+		case 4:
+			q = Req{uint32(i), ps - uint32(r.Intn(int(min(ps, 100)))), 1 + uint32(r.Intn(200)) + 100} // runs past the piece end
+		case 5:
+			q = Req{uint32(i), ps, 1}
+		default:
+			q = Req{uint32(i), 0, uint32(1<<17 + r.Intn(1<<20))}
+		}
+		if validReq(t, q) {
+			return true
+		}
+		simrt.Count("probe.leech.req_invalid", 1)
+		p.Request(q)
+		return true
+	}
+	// a piece the SUT has not announced
+	if r.Chance(0.05) {
+		for tries := 0; tries < 8; tries++ {
+			i := r.Intn(t.NumPieces)
+			p.mu.Lock()
+			lacks := !p.SutHave.Has(i)
+			p.mu.Unlock()
+			if lacks {
+				simrt.Count("probe.leech.req_missing_piece", 1)
+				p.Request(Req{uint32(i), 0, uint32(min(16384, t.PieceSize(i)))})
+				return true
+			}
+		}
+	}
+	if len(have) == 0 {
+		return false
+	}
+	i := have[r.Intn(len(have))]
+	ps := t.PieceSize(i)
+	var b, l int
+	switch r.Intn(4) {
+	case 0: // aligned block
+		nb := (ps + 16383) / 16384
+		k := r.Intn(nb)
+		b = k * 16384
+		l = min(16384, ps-b)
+	case 1: // crossing a multiple of LeechCross
+		if c := int(p.B.LeechCross); c > 0 && ps > c {
+			edge := c * (1 + r.Intn((ps-1)/c))
+			b = max(0, edge-1-r.Intn(min(edge, 16383)))
+			l = min(16384, ps-b)
+			if b+l <= edge {
+				l = min(ps-b, edge-b+1)
+			}
+			simrt.Count("probe.leech.req_crossing_cache_block", 1)
+			break
+		}
+		fallthrough
+	default: // unaligned
+		b = r.Intn(ps)
+		l = 1 + r.Intn(min(16384, ps-b))
+	}
+	p.Request(Req{uint32(i), uint32(b), uint32(l)})
+	return true
+}
